@@ -2,7 +2,10 @@
 EXTENDS RunT, Json
 CONSTANTS Emit
 
-Sc(n, ls) == [name |-> n, lines |-> ls]
+Sc(n, ls) == [name |-> n, lines |-> ls, file |-> ""]
+\* a script handed to RunT through Params.Files under the given path (equal base names in different directories:
+\* RunT has to tell the scripts, and their work directories, apart by itself)
+ScF(n, ls, f) == [name |-> n, lines |-> ls, file |-> f]
 B(ss, r) == [scripts |-> ss, retain |-> r, how |-> IF r THEN "testwork" ELSE "none"]
 BR(ss) == [scripts |-> ss, retain |-> TRUE, how |-> "workdirroot"]     \* Params.WorkdirRoot: retention with a caller-supplied root
 \* script shapes
@@ -17,6 +20,8 @@ NoPath  == <<"nopath", "gate", "condexec", "probe">>
 WithPath == <<"gate", "condexec", "probe">>
 WaitFail == <<"defer", "bgfail", "bg", "gate", "wait", "probe">>
 NamedWait == <<"bgnamed", "bg", "bg", "gate", "waitnamed", "probe", "gate", "probe">>
+Short   == <<"probe", "gate", "write", "probe", "gate", "probe">>
+DeferFail == <<"defer", "deferfail", "bg", "gate", "defer", "probe">>
 
 MCBatches == {
   B(<<Sc("p1", Plain), Sc("p2", Probe2)>>, FALSE),
@@ -31,7 +36,10 @@ MCBatches == {
   B(<<Sc("x1", WaitFail), Sc("d1", Defers)>>, FALSE),
   B(<<Sc("x1", WaitFail), Sc("x2", WaitFail)>>, FALSE),
   B(<<Sc("y1", NamedWait), Sc("s1", Skips)>>, FALSE),
-  B(<<Sc("y1", NamedWait), Sc("f1", Fails)>>, TRUE)
+  B(<<Sc("y1", NamedWait), Sc("f1", Fails)>>, TRUE),
+  B(<<Sc("g1", DeferFail), Sc("d1", Defers)>>, FALSE),
+  B(<<ScF("u1", Short, "a/foo#1"), ScF("u2", Short, "b/foo"), ScF("u3", Short, "c/foo")>>, FALSE),
+  B(<<ScF("u1", Short, "a/foo"), ScF("u2", Short, "b/foo#1"), ScF("u3", Short, "c/foo")>>, FALSE)
 }
 
 EmitStep == IF Emit /\ sched' # sched
